@@ -104,10 +104,13 @@ def refusal_cases(a, tag, rng):
     for i, an in enumerate(a.anims):
         for j, f in enumerate(an.frames):
             ops += [f"lay:{i}:{j}:{len(f.layers) + 1}", f"cnt:{i}:{j}:{(f.count + 1) & 127}", f"cnt:{i}:{j}:{(f.count + 127) & 127}"]
+            # list lengths equal to the count modulo 128 / 256 / 65536 (a narrowed comparison would accept them)
+            ops += [f"lay:{i}:{j}:{len(f.layers) + 128}", f"lay:{i}:{j}:{len(f.layers) + 256}", f"lay:{i}:{j}:{len(f.layers) + 512}"]
             if f.layers: ops += [f"lay:{i}:{j}:{len(f.layers) - 1}", f"lay:{i}:{j}:0"]
     ops = [o for o in ops if o]
     rng.shuffle(ops)
-    for o in ops[:12]:
+    ops = ops[:12] + [o for o in ops[12:] if o.startswith("lay:") and int(o.split(":")[3]) >= 128][:2]
+    for o in ops:
         yield Case(f"prt.wr {hx} {o}", expect="refused 1 -", tag=tag + ":refuse-" + o.split(":")[0])
     # consistent edits are still written (the refusal is not blanket)
     for i, an in enumerate(a.anims):
